@@ -4,6 +4,7 @@ pub mod c03;
 pub mod c04;
 pub mod c05;
 pub mod c06;
+pub mod c07;
 pub mod c09;
 pub mod c10;
 pub mod c11;
@@ -24,6 +25,7 @@ pub fn by_id(id: &str) -> Option<Box<dyn Property>> {
         "C04" => Box::new(c04::C04),
         "C05" => Box::new(c05::C05),
         "C06" => Box::new(c06::C06),
+        "C07" => Box::new(c07::C07),
         "C09" => Box::new(c09::C09),
         "C10" => Box::new(c10::C10),
         "C11" => Box::new(c11::C11),
